@@ -60,6 +60,8 @@ def build(tier, seed):
     cases.append({'kind': 'root-vector'})
     cases.append({'kind': 'root-zero'})
     cases.append({'kind': 'root-far-guess'})
+    cases.append({'kind': 'root-scale'})
+    cases.append({'kind': 'quad-options'})
     # call history: functions that share their code object (closures from one factory, a lambda in a loop) called one after
     # the other in every order -- a result must depend on the function passed, not on what was passed before
     for order in itertools.permutations(range(3)):
@@ -91,6 +93,10 @@ def run_case(case):
             run_quad_weight(pe, acc, case)
         elif case['kind'] == 'root-far-guess':
             run_root_far_guess(pe, acc, case)
+        elif case['kind'] == 'root-scale':
+            run_root_scale(pe, acc, case)
+        elif case['kind'] == 'quad-options':
+            run_quad_options(pe, acc, case)
         else:
             run_quad(pe, acc, case)
     return acc
@@ -118,6 +124,90 @@ def run_root_far_guess(pe, acc, case):
             else:
                 acc.ok(('rootfar', lay, g), True, 'root')
     acc.sample(dict(case, guesses=[1.0, 19.0, 22.0, 25.0, 30.0]))
+
+
+def run_root_scale(pe, acc, case):
+    """Explicitly invertible functions whose data, root and slope df/dx have very small or very large magnitude: the rule
+    -(df/dd)/(df/dx) does not depend on the units."""
+    a_ = anp()
+    for lay in ('single', 'purecov'):
+        for scale in (1.0, 1e-27, 1e27):
+            d = D_LAYOUTS[lay](pe, ('c09scale', lay), 2.0) * scale
+            rd = compare.to_ref(d)
+            xv = rd['value'] ** (1.0 / 3.0)
+            exp = ref.r_propagate(xv, [rd['value'] ** (-2.0 / 3.0) / 3.0], [rd])
+            sub = dict(case, lay=lay, function='x**3-d', scale=scale)
+            try:
+                x = pe.roots.find_root(d, lambda x, dd: x ** 3 - dd, guess=1.2 * xv)
+                bad = ref.close(exp, compare.to_ref(x), 1e-6)
+            except Exception as e:
+                bad = 'raised %s: %s' % (type(e).__name__, e)
+            if bad:
+                acc.fail('root-scale:x^3-d', sub, 'x**3 = d with d of order %g: %s' % (scale, bad))
+            else:
+                acc.ok(('rootscale', 'cube', lay, scale), True, 'root-scale')
+        for s0, s1 in ((1.0, 1.0), (1e-17, 1e-17), (1e-20, 1e-9), (1e12, 1e3)):
+            d0 = D_LAYOUTS[lay](pe, ('c09scale0', lay), 1.3) * s0
+            d1 = D_LAYOUTS['single'](pe, ('c09scale1', lay), 2.1) * s1     # with lay 'purecov': a covariance input next to Monte-Carlo data
+            r0, r1 = compare.to_ref(d0), compare.to_ref(d1)
+            xv = r1['value'] / r0['value']
+            exp = ref.r_propagate(xv, [-r1['value'] / r0['value'] ** 2, 1.0 / r0['value']], [r0, r1])
+            sub = dict(case, lay=lay, function='d0*x-d1', scales=[s0, s1])
+            try:
+                x = pe.roots.find_root([d0, d1], lambda x, dd: dd[0] * x - dd[1], guess=1.1 * xv)
+                bad = ref.close(exp, compare.to_ref(x), 1e-6)
+                if not bad:
+                    bad = ref.close(compare.to_ref(d1 / d0), compare.to_ref(x), 1e-6)
+            except Exception as e:
+                bad = 'raised %s: %s' % (type(e).__name__, e)
+            if bad:
+                acc.fail('root-scale:d0*x-d1', sub, 'd0 x = d1 with d0, d1 of order %g, %g: %s' % (s0, s1, bad))
+            else:
+                acc.ok(('rootscale', 'lin', lay, s0, s1), True, 'root-scale')
+    acc.sample(dict(case, cube_scales=[1.0, 1e-27, 1e27], linear_scales=[[1.0, 1.0], [1e-17, 1e-17], [1e-20, 1e-9], [1e12, 1e3]]))
+
+
+def run_quad_options(pe, acc, case):
+    """scipy's accuracy options are handed on as given (a purely relative request epsabs=0 included) for integrands of order one and of order
+    1e-10: same numbers as scipy without observables, the antiderivative with observables."""
+    import scipy.integrate
+    a_ = anp()
+    f = lambda p, x: p[0] * a_.cos(p[1] * x)        # noqa: E731
+    F = lambda p0, p1, x: p0 * math.sin(p1 * x) / p1        # noqa: E731
+    lo, hi = 0.2, 10.0
+    options = [{}, {'epsabs': 0, 'epsrel': 1e-10, 'limit': 200}, {'epsabs': 0.0}, {'epsabs': 1e-13, 'epsrel': 1e-10, 'limit': 200}, {'epsabs': 0, 'epsrel': 1e-9, 'limit': 300, 'points': None}]
+    for amp in (1.0, 1e-10, 1e8):
+        p0 = D_LAYOUTS['single'](pe, ('c09qo', 0), 1.3) * amp
+        p1 = alpha.make_obs(pe, {'B|r1': 's3'}, ('c09qo', 1), 'white', 30.0, 0.05)[0]
+        r0, r1 = compare.to_ref(p0), compare.to_ref(p1)
+        v0, v1 = r0['value'], r1['value']
+        val = F(v0, v1, hi) - F(v0, v1, lo)
+        dI0 = (math.sin(v1 * hi) - math.sin(v1 * lo)) / v1
+        dI1 = v0 * ((hi * math.cos(v1 * hi) - lo * math.cos(v1 * lo)) / v1 - (math.sin(v1 * hi) - math.sin(v1 * lo)) / v1 ** 2)
+        for oi, opts in enumerate(options):
+            if amp != 1.0 and 'epsabs' not in opts:
+                continue        # the default absolute accuracy 1.49e-8 is not meant for an integrand of order 1e-10
+            if amp == 1e8 and opts.get('epsabs'):
+                continue
+            sub = dict(case, amplitude=amp, options={k: repr(v) for k, v in opts.items()})
+            try:
+                plain = pe.integrate.quad(f, [v0, v1], lo, hi, **opts)
+                sc = scipy.integrate.quad(lambda x: f([v0, v1], x), lo, hi, **opts)
+                if not (plain[0] == sc[0] and plain[1] == sc[1]):
+                    acc.fail('quad-options:plain', sub, 'without observables %r (error estimate %r), scipy with the same options %r (%r)' % (plain[0], plain[1], sc[0], sc[1]))
+                    continue
+                res = pe.integrate.quad(f, [p0, p1], lo, hi, **opts)[0]
+                exp = ref.r_propagate(val, [dI0, dI1], [r0, r1])
+                bad = ref.close(exp, compare.to_ref(res), 1e-6)
+                if not bad and not abs(res.value - val) <= 1e-7 * abs(v0) / v1:
+                    bad = 'value %.12g, antiderivative %.12g' % (res.value, val)
+            except Exception as e:
+                bad = 'raised %s: %s' % (type(e).__name__, e)
+            if bad:
+                acc.fail('quad-options:obs', sub, 'integral of p0 cos(p1 x), amplitude %g, options %r: %s' % (amp, opts, bad))
+            else:
+                acc.ok(('quadopt', amp, oi), True, 'quad-options')
+    acc.sample(dict(case, amplitudes=[1.0, 1e-10, 1e8], options=[repr(o) for o in options]))
 
 
 def run_root(pe, acc, case):
